@@ -198,7 +198,7 @@ def valid_device(spec):
 
 
 @st.composite
-def currents(draw, dspec, current_units, kinds=("dict", "callable"), allow_zero=True, jmax=0.35):
+def currents(draw, dspec, current_units, kinds=("dict", "callable"), allow_zero=True, jmax=0.35, generic=False):
     """Balanced terminal currents: integer multiples of a decimal quantum, exact sum zero."""
     terms = dspec["terminals"]
     if len(terms) < 2 or (allow_zero and draw(st.integers(0, 5)) == 0):
@@ -217,8 +217,20 @@ def currents(draw, dspec, current_units, kinds=("dict", "callable"), allow_zero=
     last = -sum(m)
     mult = {t["name"]: v for t, v in zip(terms, m + [last])}
     cs = dict(kind=draw(st.sampled_from(list(kinds))), quantum=quantum, mult=mult)
+    if generic and n >= 3 and draw(st.booleans()):
+        # generic floats: partial sums depend on the order of summation in the last bit
+        vals = [draw(st.floats(-1.0, 1.0)) * 9 * float(quantum) for _ in range(n - 1)]
+        tot = 0.0
+        for v in vals:
+            tot += v
+        cs["generic"] = {t["name"]: v for t, v in zip(terms, vals + [-tot])}
     if cs["kind"] == "callable":
-        cs["profile"] = draw(st.sampled_from(["ramp", "step", "sine", "pulse"]))
+        cs["profile"] = draw(st.sampled_from(["ramp", "step", "sine", "pulse", "const", "const"]))
+        if n >= 3 and draw(st.booleans()):
+            # current moved between two terminals with its own time profile while the others keep theirs
+            a, b = draw(st.permutations([t["name"] for t in terms]))[:2]
+            cs["shift"] = {"from": a, "to": b, "mult": draw(st.integers(1, 6)), "profile": draw(st.sampled_from(["stairs", "stairs", "ramp", "step"])),
+                           "t0_frac": draw(rf(0.1, 0.6)), "t0": draw(rf(0.02, 2.0))}
         # switching time as a fraction of the run (builders that know solve_time use it), with an absolute fallback
         cs["t0_frac"] = draw(rf(0.1, 0.6))
         cs["t0"] = draw(rf(0.02, 2.0))
